@@ -8,7 +8,8 @@
 //             directories and records GET, /index and the directory contents.
 //   Cancel k: the client "disconnects" (http.CloseNotifier fires) at yield point k.
 // Scenarios: body sizes 0, 1, 100000 (0, 1, 4 chunk writes); 1-2 volumes; prior copy absent / intact /
-// corrupt on either volume; one read-only variant.
+// corrupt (bit flip + shortened, right bytes + trailing bytes, proper prefix) on either volume; one
+// read-only variant.
 package main
 
 import (
@@ -133,6 +134,12 @@ func c02Plant(dirs []string, sc c02Scenario, data []byte, hash string) {
 		case "corrupt":
 			os.MkdirAll(pdir, 0755)
 			ioutil.WriteFile(p, c02Corrupt(data), 0644)
+		case "extended": // the right bytes followed by more
+			os.MkdirAll(pdir, 0755)
+			ioutil.WriteFile(p, append(append([]byte(nil), data...), []byte("sixteen more....")...), 0644)
+		case "truncated": // a proper prefix of the right bytes (the zero-length file for a 1-byte block)
+			os.MkdirAll(pdir, 0755)
+			ioutil.WriteFile(p, data[:len(data)/2], 0644)
 		}
 	}
 }
@@ -192,7 +199,14 @@ func c02Observe(cfgDirs []string, ro []bool, order []int, data []byte, hash stri
 	if err != nil {
 		panic(err)
 	}
-	rr := env.do("GET", "/"+hash, nil, -1, false)
+	// The GET is answered to a client that is slow to take the body: while the handler is inside its first
+	// Write, every buffer that is in the buffer pool at that moment is overwritten (another request could
+	// have taken it).  A correct handler still holds its buffer, so this changes nothing.
+	pool := ksInstallPool(env.quiet, 2)
+	sw := &ksSlowWriter{ResponseRecorder: httptest.NewRecorder()}
+	sw.hook = func() { pool.scribble(len(data) + 200) }
+	ksOneP(func() { env.serve(sw, "GET", "/"+hash, nil, -1, false) })
+	rr := sw.ResponseRecorder
 	o.get = rr.Code
 	if rr.Code == 200 {
 		o.good = bytes.Equal(rr.Body.Bytes(), data)
@@ -264,6 +278,12 @@ func TestVerifC02(t *testing.T) {
 		for _, p := range []string{"absent", "absentdir", "intact", "corrupt"} {
 			scs = append(scs, c02Scenario{Size: size, Ro: []bool{false}, Prior: []string{p}})
 		}
+		// more shapes of a corrupt prior copy (all of them KCorrupt <size> for the model)
+		scs = append(scs, c02Scenario{Size: size, Ro: []bool{false}, Prior: []string{"extended"}})
+		if size > 0 {
+			scs = append(scs, c02Scenario{Size: size, Ro: []bool{false}, Prior: []string{"truncated"}})
+			scs = append(scs, c02Scenario{Size: size, Ro: []bool{false, false}, Prior: []string{"extended", "truncated"}})
+		}
 		for _, p0 := range []string{"absent", "intact", "corrupt"} {
 			for _, p1 := range []string{"absent", "intact", "corrupt"} {
 				scs = append(scs, c02Scenario{Size: size, Ro: []bool{false, false}, Prior: []string{p0, p1}})
@@ -318,6 +338,14 @@ func TestVerifC02(t *testing.T) {
 		var trace []string
 		cn := &c02CN{ResponseRecorder: httptest.NewRecorder(), ch: make(chan bool, 1)}
 		fired := false
+		// undisturbed runs: a real 2-buffer pool, and at every filesystem step of the volume work every
+		// buffer that is in the pool is overwritten (another request could have taken it).  The PUT holds
+		// its buffer until PutBlock has returned, so this changes nothing unless the buffer is given back
+		// while the volume code still reads from it.
+		var pool *ksPool
+		if j.mode == "plain" {
+			pool = ksInstallPool(env.quiet, 2)
+		}
 		verifSetHook(func(label string) {
 			tm.Lock()
 			k := len(trace)
@@ -326,6 +354,9 @@ func TestVerifC02(t *testing.T) {
 			if fire {
 				fired = true
 			}
+			if pool != nil {
+				pool.scribble(len(data) + 200)
+			}
 			tm.Unlock()
 			if fire {
 				cn.ch <- true
@@ -333,7 +364,11 @@ func TestVerifC02(t *testing.T) {
 			}
 		})
 		req := httptest.NewRequest("PUT", "/"+hash, bytes.NewReader(data))
-		env.h.ServeHTTP(cn, req)
+		if pool != nil {
+			ksOneP(func() { env.h.ServeHTTP(cn, req) })
+		} else {
+			env.h.ServeHTTP(cn, req)
+		}
 		// WriteBlock may still be running in the background after a cancelled request (putWithPipe
 		// does not wait for it): wait until no instrumented method is active any more
 		// (three consecutive idle readings: a WriteBlock goroutine that putWithPipe has just spawned
